@@ -76,8 +76,10 @@ Proof. vm_compute. repeat split; reflexivity. Qed.
 
 (* ---- hostile arrays (what the loader accepts without checking): the bounds-checked readers answer None ---- *)
 From SudachiVerif Require Model.Trie Model.WordIdTable.
+(* (a unit whose offset field is 2^20: far outside the one-unit array, and small enough for the unary index of the model's
+   `nth_error` -- the all-ones unit, offset 2^30 - 256, costs 39 GB of unary numeral to evaluate) *)
 Example trie_hostile_array_out_of_bounds :
-  Trie.traverse_opt [4294967295%N] [97%N] 0 = None.
+  Trie.traverse_opt [1073741824%N] [97%N] 0 = None.
 Proof. vm_compute. reflexivity. Qed.
 Example wid_table_hostile_out_of_bounds :
   WordIdTable.entries [3; 1; 0; 0; 0]%N 0%N = None /\ WordIdTable.entries [1; 7; 0; 0; 0]%N 0%N = Some [7%N].
